@@ -21,7 +21,8 @@ FLOORS = {"requests_honoured": {"quick": 3000, "thorough": 40000}, "cycles_compa
           "combiner_requests_honoured": {"quick": 2000, "thorough": 30000},
           "map_child_start_requests_honoured": {"quick": 100, "thorough": 1500},
           "list_map_child_requests_honoured": {"quick": 300, "thorough": 5000},
-          "try_child_requests_honoured_after_caught_error": {"quick": 200, "thorough": 3000}}
+          "try_child_requests_honoured_after_caught_error": {"quick": 200, "thorough": 3000},
+          "mesh_instance_requests_honoured": {"quick": 300, "thorough": 5000}, "mesh_instances_resumed_after_a_pause": {"quick": 40, "thorough": 600}}
 BATCH = 25
 
 
@@ -47,6 +48,8 @@ def generate(rng, tier, seed):
         cases.append(gen_listmap_timers(rng, f"c02_{seed}_lm{k}"))
     for k in range(n // 8):
         cases.append(gen_try_timers(rng, f"c02_{seed}_tt{k}"))
+    for k in range(n // 8):
+        cases.append(gen_mesh_timers(rng, f"c02_{seed}_mt{k}"))
     return cases
 
 
@@ -128,6 +131,38 @@ def gen_listmap_timers(rng, name):
     return c
 
 
+def gen_mesh_timers(rng, name):
+    """mesh_ instances that hold a self-scheduling node BEFORE their mesh reference: in the cycle an instance first reads a peer that
+    has to be created / evaluated first, it is PAUSED at the reference after the timer node has already re-armed itself and is
+    resumed later in the same cycle; every wake-up armed before the pause is still owed. Oracle: trace only."""
+    from .prog import Case, S
+    end = rng.choice([24, 36, 48])
+    c = Case(name, 0, end)
+    nk = rng.choice([2, 3, 4, 6])
+    keys = list(range(1, nk + 1))
+    vals = {}
+    for k in keys:
+        vals.setdefault(0 if rng.random() < 0.6 else rng.choice([1, 2, 5]), []).append(f"[{k}]={k * 10}")
+    for t in sorted(rng.sample(range(6, end), rng.choice([0, 2, 4]))):
+        vals.setdefault(t, []).append(f"[{rng.choice(keys)}]={rng.randint(1, 99)}")
+    links = {}
+    for k in keys[1:]:
+        if rng.random() < 0.85:
+            # a higher key reads a lower one (created later in slot order or in a later cycle): the reader pauses
+            links.setdefault(0, []).append(f"[{k}]={rng.randrange(1, k)}")
+    c.cscripts[1] = [f"{t}|" + ",".join(ops) for t, ops in sorted(vals.items())]
+    c.cscripts[2] = [f"{t}|" + ",".join(ops) for t, ops in sorted(links.items())]
+    per = rng.choice([2, 3, 5, 7])
+    c.graphs["fn0"] = [S("tk", "ticker", uid=101, period=per, count=rng.choice([4, 6, 9])), S("w", "pass", "tk", uid=102),
+                       S("e", "pass", "p0", uid=100), S("l", "pass", "p1", uid=103), S("dep", "meshref", "l"),
+                       S("g", "gate", "w", "dep", uid=105), S("h", "add2", "g", "e", uid=106), S("", "RET", "h")]
+    c.graphs["main"] = [S("d", "csrc", shape="tsd", uid=1), S("k", "csrc", shape="tsd", uid=2), S("m", "mesh", "d", "k", fn="fn2:0"),
+                        S("", "cmirror", "m", uid=50)]
+    c.meta["kind2"] = "reduce_timers"
+    c.meta["family"] = "mesh_timers"
+    return c
+
+
 def gen_try_timers(rng, name):
     """try_except around a sub-graph that holds self-scheduling nodes and a node that throws once: the exception is caught, the
     wake-ups still pending inside the child must be honoured afterwards (the owner re-arms from the abandoned cycle too)."""
@@ -199,6 +234,7 @@ def check_reduce_timers(case, tr):
     run = tr.runs[0]
     cycles, evals_at, open_t, reqs, stopped = [], {}, {}, [], {}
     abandoned = set()
+    entered = {}                   # (graph, node, cycle) -> evaluation brackets opened (2 = paused at a mesh reference and resumed)
     tnow = None
     for seq, kind, tk in run.events:
         if kind == "C<":
@@ -207,10 +243,12 @@ def check_reduce_timers(case, tr):
             if gid == 0:
                 cycles.append(t)
                 tnow = t
+
         elif kind == "C>":
             open_t.pop(int(tk[0]), None)
         elif kind == "E<":
             gid, idx = int(tk[0]), int(tk[1])
+            entered[(gid, idx, tnow)] = entered.get((gid, idx, tnow), 0) + 1
             if gid in open_t:
                 evals_at.setdefault((gid, idx), set()).add(open_t[gid])
         elif kind == "u.req":
@@ -240,6 +278,9 @@ def check_reduce_timers(case, tr):
         res.counters = {"try_child_requests_honoured_after_caught_error": honoured}
     if case.meta.get("family") == "listmap_timers":
         res.counters = {"list_map_child_requests_honoured": honoured}
+    if case.meta.get("family") == "mesh_timers":
+        res.counters = {"mesh_instance_requests_honoured": honoured,
+                        "mesh_instances_resumed_after_a_pause": sum(1 for v in entered.values() if v >= 2)}
     if case.meta.get("family") == "map_start_timers":
         res.counters = {"map_child_start_requests_honoured": honoured, "map_child_requests_retired": retired}
     res.nontrivial = honoured >= 4
